@@ -219,6 +219,22 @@ PROPS["C11"] = {
     "level_note": "Partial: inotify semantics, queue overflow, goroutine scheduling and timing are the kernel's and runtime's; the model covers one directory (directories are independent in watch.update).",
 }
 
+PROPS["C12"] = {
+    "level": "proof",
+    "streams": ["race"],
+    "prebuild": [_core.build_race],
+    "timeout": 3600,
+    "trusted_base": ["factgen F9: the per-entry-point sequence of Lock/Unlock and accesses to the fields of Cache and watch, internal methods inlined, control flow flattened in source order (pkg/cdi/cache.go); the dirErrors parameter of the watch methods is the cache's dirErrors map",
+                     "sync.Mutex: mutual exclusion and the happens-before edge from Unlock to the next Lock (Go memory model)",
+                     "Go race detector (ThreadSanitizer) for the searched executions",
+                     "Spec objects and the maps handed out by queries are not mutated after a refresh published them (not modelled)"],
+    "assumptions": ["a data race = two different goroutines simultaneously about to access shared cache state, in some schedule",
+                    "'switches atomically between two states' = one Spec file replaced by rename(2) between two contents"],
+    "technique": "Lean 4 proof: lock-set theorem over all thread counts, programs and schedules (guarded programs => no two threads ever both at an access, critical sections atomic, no deadlock) + decide that every entry point extracted from cache.go is guarded + inductive invariant of the refresh/query machine (every finished query read all index maps from one scan); race-detector build of the harness running operation sets with the watcher and an atomically flipping directory",
+    "level_text": "Kernel-checked theorems: (1) for every assignment of guarded programs (every access between Lock and Unlock, no nested Lock, mutex released at the end) to any number of threads and every schedule, no reachable state has two threads about to access shared state, while one thread is in its critical section no other thread can step, and some thread can always step while work is left; (2) the fact obligation that every exported Cache method and the watcher goroutine, as extracted from the source on each run, is guarded, and that the index maps are replaced / read within one critical section; (3) for any number of refreshers and queries under every schedule a finished query has read all maps from one admissible scan. Tied to the code by the regenerated access table and by running pairs and sets of the 14 public operations concurrently with the watcher goroutine and a directory flipping atomically between two states, in a race-detector build, classifying every ListDevices/GetVendorSpecs/InjectDevices result as state A or state B, with a watchdog for hangs.",
+    "level_note": "Partial: goroutine scheduling, the memory model and the race detector are the runtime's; the access table flattens control flow; objects reachable from returned values are assumed immutable.",
+}
+
 PROPS["C20"] = {
     "level": "proof",
     "streams": ["reconf"],
